@@ -510,7 +510,11 @@ func runHelper(s HelperScript) (nontrivial bool, key string, f *vt.Finding) {
 func runHelperInner(s *HelperScript) (bool, *vt.Finding) {
 	ctx := context.Background()
 	api := apis[s.Signal]
-	onlyGraph := os.Getenv("C06_HELPER_ONLY_GRAPH") != "" // debug aid: skip the direct phases (to watch the crash path work)
+	// debug aid (sensitivity runs only): C06_HELPER_DEBUG=no-structural skips the configuration-derived
+	// capability clauses (to watch the behavioural clause work), =only-graph also skips the standalone
+	// phase (to watch the crash path work).
+	dbg := os.Getenv("C06_HELPER_DEBUG")
+	onlyGraph, structural := dbg == "only-graph", dbg == ""
 
 	mode := "plain"
 	switch {
@@ -542,7 +546,7 @@ func runHelperInner(s *HelperScript) (bool, *vt.Finding) {
 		}
 		adv := e.Component.(capser).Capabilities().MutatesData
 		// (a) what the helper advertises covers what its configuration makes it do
-		if s.Exp.mayMutate() && !adv {
+		if structural && s.Exp.mayMutate() && !adv {
 			return true, vt.Failf("helper-exporter/under-advertises", "exporter built with %+v merges or splits the payloads it is given (batch min_size=%d max_size=%d) but advertises MutatesData=false", s.Exp, s.Exp.Min, s.Exp.Max)
 		}
 		if s.Exp.Caps == "true" && !adv {
@@ -621,7 +625,7 @@ func runHelperInner(s *HelperScript) (bool, *vt.Finding) {
 		return false, vt.Failf("harness/no-helper-exporter", "the helper exporter was never built")
 	}
 	hadv := *w.hcaps
-	if !onlyGraph {
+	if structural {
 		if s.Exp.mayMutate() && !hadv {
 			return true, vt.Failf("helper-exporter/under-advertises", "exporter built with %+v (in the graph) advertises MutatesData=false", s.Exp)
 		}
@@ -742,4 +746,4 @@ func runHelperInner(s *HelperScript) (bool, *vt.Finding) {
 	return s.Exp.mayMutate() && (big || w.pushes != s.Sends), nil
 }
 
-func TestHelper(t *testing.T) { vt.Run(t, cHelper, vt.N(2500, 120000), genHelper, runHelper) }
+func TestHelper(t *testing.T) { vt.Run(t, cHelper, vt.N(2000, 100000), genHelper, runHelper) }
